@@ -672,6 +672,14 @@ func (ep *episode) monitors(run *hx.Run, calls []call, obs []*callObs, pre, post
 			}
 		}
 	}
+	// a set the node's own store refused (an entry contradicts what this share stored before) must not
+	// be handed to the internal subscribers (the peer exchange): the node's share would back two
+	// signing roots on the wire
+	for i, o := range obs {
+		if o.isub && (o.err == "mismatch" || o.err == "subcomm" || o.err == "other") {
+			run.Violate("parsigdb:rejected_set_exchanged", fmt.Sprintf("StoreInternal for duty %v returned %q but the internal subscribers (peer exchange) were called with the set", calls[i].duty(), o.err))
+		}
+	}
 	// threshold callbacks: payload soundness and at-most-once
 	anyEntryErr := false
 	for i, o := range obs {
